@@ -59,6 +59,8 @@ Cmp(v, w) ==
     IF Rank(v) # Rank(w) THEN IntCmp(Rank(v), Rank(w))
     ELSE CASE v[1] = "nil"  -> 0
            [] v[1] = "num"  -> IntCmp(v[2], w[2])      \* rep is ignored
+           \* two paddings: one is a prefix of the other
+           [] v[1] = "pad" /\ w[1] = "pad" -> IntCmp(v[2], w[2])
            [] v[1] \in {"str", "pad"} -> BytesCmp(StrBytes(v), StrBytes(w))
            [] v[1] = "bool" -> IntCmp(v[2], w[2])
            [] v[1] = "time" -> IntCmp(v[2], w[2])      \* zone is ignored
